@@ -120,9 +120,9 @@ func (sm *ShardingManager) CalculateShardAssignments(
 		}
 	}()
 
-	if len(nodes) > defaultBatchSize {
-		return sm.calculateShardAssignmentsBatched(nodes, currentShards)
-	}
+	// Large clusters run the per-node Filter phase in batches; the
+	// collection-level Sort/Select phases always see the whole cluster.
+	batched := len(nodes) > defaultBatchSize
 
 	allMetrics := sm.metricsProvider.GetAllNodeMetrics()
 	policyMetrics := sm.convertNodeMetrics(allMetrics)
@@ -149,7 +149,12 @@ func (sm *ShardingManager) CalculateShardAssignments(
 			CurrentShard:  currentShardsMap[config.Name],
 		}
 
-		selected := sm.runPipeline(config, ctx)
+		var selected []string
+		if batched {
+			selected = sm.runPipelineBatched(config, ctx)
+		} else {
+			selected = sm.runPipeline(config, ctx)
+		}
 
 		for _, nodeName := range selected {
 			assignedNodes[nodeName] = config.Name
@@ -186,8 +191,36 @@ func (sm *ShardingManager) CalculateShardAssignments(
 // node-limit Selector from SchedulerConfigSpec.MinNodes/MaxNodes via
 // applyPolicyDefaults so MaxNodes is honored without an inline clamp.
 func (sm *ShardingManager) runPipeline(config SchedulerConfig, ctx *policy.PolicyContext) []string {
+	candidates := sm.filterCandidates(config, ctx, ctx.AllNodes)
+	return sm.sortAndSelect(config, ctx, candidates)
+}
+
+// runPipelineBatched is runPipeline for large clusters: the per-node Filter
+// phase runs batch by batch, the survivors are merged in node order, and the
+// collection-level phases (global score order, Selector chain such as the
+// node-limit cap) run once over the merged candidates. Running Sort/Select per
+// batch would apply maxNodes to every batch separately and order nodes only
+// within a batch.
+func (sm *ShardingManager) runPipelineBatched(config SchedulerConfig, ctx *policy.PolicyContext) []string {
+	nodes := ctx.AllNodes
+	var candidates []*corev1.Node
+	for i := 0; i < len(nodes); i += defaultBatchSize {
+		end := i + defaultBatchSize
+		if end > len(nodes) {
+			end = len(nodes)
+		}
+		candidates = append(candidates, sm.filterCandidates(config, ctx, nodes[i:end])...)
+
+		time.Sleep(10 * time.Millisecond)
+	}
+	return sm.sortAndSelect(config, ctx, candidates)
+}
+
+// filterCandidates drops nodes already claimed by an earlier scheduler and
+// keeps the ones every configured Filterer accepts (phase 1).
+func (sm *ShardingManager) filterCandidates(config SchedulerConfig, ctx *policy.PolicyContext, nodes []*corev1.Node) []*corev1.Node {
 	resolved := sm.policyCache[config.Name]
-	candidates := dropAssigned(ctx.AllNodes, ctx.AssignedNodes)
+	candidates := dropAssigned(nodes, ctx.AssignedNodes)
 
 	filterers := make([]policy.Filterer, 0, len(resolved))
 	for _, rp := range resolved {
@@ -211,6 +244,13 @@ func (sm *ShardingManager) runPipeline(config SchedulerConfig, ctx *policy.Polic
 		}
 		candidates = kept
 	}
+	return candidates
+}
+
+// sortAndSelect orders the filtered candidates by descending weighted score
+// (phase 2) and runs the Selector chain (phase 3).
+func (sm *ShardingManager) sortAndSelect(config SchedulerConfig, ctx *policy.PolicyContext, candidates []*corev1.Node) []string {
+	resolved := sm.policyCache[config.Name]
 
 	// Parallel slice indexed by candidate position avoids per-node string
 	// hashing in the sort comparator.
@@ -275,39 +315,6 @@ func dropAssigned(nodes []*corev1.Node, assigned map[string]string) []*corev1.No
 		out = append(out, n)
 	}
 	return out
-}
-
-func (sm *ShardingManager) calculateShardAssignmentsBatched(
-	nodes []*corev1.Node,
-	currentShards []*shardv1alpha1.NodeShard,
-) (map[string]*ShardAssignment, error) {
-	batchSize := defaultBatchSize
-	assignments := make(map[string]*ShardAssignment)
-
-	for i := 0; i < len(nodes); i += batchSize {
-		end := i + batchSize
-		if end > len(nodes) {
-			end = len(nodes)
-		}
-
-		batch := nodes[i:end]
-		batchAssignments, err := sm.CalculateShardAssignments(batch, currentShards)
-		if err != nil {
-			return nil, err
-		}
-
-		for scheduler, assignment := range batchAssignments {
-			if existing, exists := assignments[scheduler]; exists {
-				existing.NodesDesired = append(existing.NodesDesired, assignment.NodesDesired...)
-			} else {
-				assignments[scheduler] = assignment
-			}
-		}
-
-		time.Sleep(10 * time.Millisecond)
-	}
-
-	return assignments, nil
 }
 
 func (sm *ShardingManager) convertNodeMetrics(metrics map[string]*NodeMetrics) map[string]*policy.NodeMetrics {
